@@ -166,6 +166,9 @@ def gen_site(rng: random.Random, scratch: str, name_classes=("plain", "spaces", 
     if with_exec:
         t.file("cgi.sh", trees.script_echo_env(), mode=0o755)
         m.add(b"/cgi.sh", "doc", None, needs_full=True, tags=["exec"])
+        # a script whose own name needs escaping in every URL
+        t.file("c#find 100%.sh", trees.script_echo_env(), mode=0o755)
+        m.add(b"/c#find 100%.sh", "doc", None, needs_full=True, tags=["exec", "name:reserved"])
         t.file("echo.pyg", trees.pyg_echo(), mode=0o755)
         m.add(b"/echo.pyg", "doc", None, needs_full=True, tags=["pyg"])
         payload = trees.gen_content(rng, 5000, "text")
